@@ -22,6 +22,10 @@ def cfg_key(cfg):
 def run_queries(mod, cfg, out, stats, cosim_cycles=0, extra_observe=lambda h: []):
     """Translate the configuration once, discharge all its queries, optionally co-simulate."""
     make = mod.maker(cfg)
+    if getattr(mod, "WARMUP", True):
+        # another instance of the same configuration is built and elaborated first: hardware must not depend
+        # on process-global state left behind by earlier elaborations (module-level caches and the like)
+        make().translate()
     h = make()
     ts = h.translate()
     st = ts.stats()
